@@ -44,11 +44,41 @@ Proof.
 Qed.
 Print Assumptions C02_requoter_bytes.
 
-(** PARTIAL: for the requoters the bytes are proved (above); the escaped-vs-literal status (constructor path: "%XY" of the input is an escape) the
-    of '/', '&', '=', '+', ';' (hence the number and boundaries of segments and pairs)
-    is the executable predicate c02_pred (Preds/P02.v), checked on the implementation and on
-    the model; the decode tables (C04_decode_table: a requoter decodes exactly the escapes of
-    literal, unprotected ASCII characters) are proved by complete sweep. *)
+(** Delimiter status.  Canonicalisation distributes over every literal separator of the
+    component - '/' in paths, '&', '=' and ';' in queries - for the requoters (the
+    constructor) and the plain quoters alike, for EVERY string: a literal separator is never
+    swallowed by the look-ahead of a preceding '%' (qspec_sep), and no new literal separator
+    appears (an escape of the separator stays escaped because the separator is protected,
+    every other character is written as itself or as escapes).  Hence the canonical form of
+    a path is the '/'-join of the canonical forms of its segments and that of a query the
+    '&'-join of those of its pairs: number and boundaries of segments and pairs never change.
+    Side conditions on the regenerated tables by computation ([sep_table_ok]). *)
+From Yarl Require Import Proofs.SepProofs.
+Theorem C02_separator_distributes : forall (k : qeff) (sep : N),
+  (sep < 128)%N -> e_safe k sep = true -> (sep =? 37)%N = false -> hexval sep = None ->
+  e_qs k && (sep =? 32)%N = false ->
+  forall a b : str, qspec k (a ++ sep :: b) = qspec k a ++ sep :: qspec k b.
+Proof. intros k sep H1 H2 H3 H4 H5 a b. now apply qspec_sep. Qed.
+Print Assumptions C02_separator_distributes.
+
+Theorem C02_segments_and_pairs_preserved : forall (b : backend) kc sep (s : str),
+  In (kc, sep) sep_table -> valid_str s -> no_sur s ->
+  split sep (quote_impl b (eff_of kc) s) = map (quote_impl b (eff_of kc)) (split sep s).
+Proof. exact quote_impl_segments. Qed.
+Print Assumptions C02_segments_and_pairs_preserved.
+
+Example C02_separators_covered :
+  sep_table = [ (PATH_REQUOTER, 47); (PATH_QUOTER, 47); (QUERY_REQUOTER, 38); (QUERY_REQUOTER, 61); (QUERY_REQUOTER, 59);
+                (QUERY_QUOTER, 38); (QUERY_QUOTER, 61); (QUERY_QUOTER, 59) ]%N.
+Proof. reflexivity. Qed.
+Print Assumptions C02_separators_covered.
+
+(** that an ESCAPED delimiter stays escaped (%2F in a path, %26 %3D %2B %3B in a query) is
+    the decode table, proved by complete sweep (C04_decode_table: a requoter decodes exactly
+    the escapes of literal, unprotected ASCII characters).  '+' in queries: a literal '+' and
+    a space are both written '+' (both mean space), %2B is never decoded.
+    PARTIAL: the URL-level composition (which component each entry point hands to which
+    quoter) is the executable predicate c02_pred (Preds/P02.v) on the implementation. *)
 
 Example C02_spec_example :
   same_meaning true false false res_path [97;37;50;102;98;233]%N [97;37;50;70;98;37;67;51;37;65;57]%N = true   (* a%2fbé vs a%2Fb%C3%A9 *)
